@@ -35,8 +35,10 @@ SPECS = {
     "C12": dict(units=[machine("TestC12", 560, 10000, steps=34)], floor=0.18, rule=None, assumptions=MACHINE_ASSUME),
     "C08": dict(units=[machine("TestC08", 400, 6000, steps=34), dict(test="TestKnownC08", kind="plain", quick=1, thorough=1)], floor=0.28, rule=None, assumptions=MACHINE_ASSUME),
     "C07": dict(units=[machine("TestC07", 640, 10000, steps=30)], floor=0.35, rule=None, assumptions=MACHINE_ASSUME),
-    "C09": dict(units=[machine("TestC09", 320, 5000, steps=36), machine("TestC09Process", 0, 640, steps=30, thorough_only=True)], floor=0.30, rule=None, assumptions=MACHINE_ASSUME),
-    "C10": dict(units=[machine("TestC10", 400, 6000, steps=36), machine("TestC10Disk", 0, 1600, steps=30, thorough_only=True)], floor=0.40, rule=None, assumptions=MACHINE_ASSUME),
+    "C09": dict(units=[machine("TestC09", 320, 5000, steps=36), machine("TestC09Process", 0, 640, steps=30, thorough_only=True),
+                       dict(test="TestC09Concurrent", race=True, quick=16, thorough=320, shards=16, timeout=1500)], floor=0.30, rule=None, assumptions=MACHINE_ASSUME),
+    "C10": dict(units=[machine("TestC10", 400, 6000, steps=36), machine("TestC10Disk", 0, 1600, steps=30, thorough_only=True),
+                       machine("TestC10PostUpgrade", 160, 2400)], floor=0.40, rule=None, assumptions=MACHINE_ASSUME),
     "C14": dict(units=[dict(test="TestC14Enum", quick=16, thorough=640, shards=16, timeout=1800), dict(test="TestC14", quick=40000, thorough=2000000, timeout=1800),
                        dict(test="TestKnownC14", kind="plain", quick=1, thorough=1)],
                 floor=0.30,
